@@ -19,18 +19,21 @@ CONSTANTS MaxCfg, MaxParse, Family, Emit, Reconfigure, Small
 VARIABLES ps, hist, ncfg, nparse
 vars == <<ps, hist, ncfg, nparse>>
 
-Layer == IF Family = "c11" THEN "prelude" ELSE "generic"
+\* families c15p / c16p: the same histories on PasetoParser (which delegates to a GenericParser and
+\* always carries the default exp / nbf validators)
+Base == IF Family = "c15p" THEN "c15" ELSE IF Family = "c16p" THEN "c16" ELSE Family
+Layer == IF Family \in {"c11", "c15p", "c16p"} THEN "prelude" ELSE "generic"
 Pr == <<4, "local">>
 
 NoClaims == [k \in PKeys |-> "absent"]
 Org(f) == Origin(Pr, "k1", "s1", "m1", f, "none")
 
 TokTable ==
-  CASE Family = "c15" ->
+  CASE Base = "c15" ->
          LET S == {<<a, b>> : a \in GenericVals, b \in (IF Small THEN GenericVals \ {"null"} ELSE GenericVals)} IN
          LET seq == SetToSeq(S) IN
          [i \in 1..Len(seq) |-> Tok(Org("none"), NoEdit, TRUE, [NoClaims EXCEPT !["iss"] = seq[i][1], !["ca"] = seq[i][2]])]
-    [] Family = "c16" ->
+    [] Base = "c16" ->
          LET S == {<<a, b, f>> : a \in {"absent", "v1", "v2"}, b \in {"absent", "v1", "v2"}, f \in {"none", "f1"}} IN
          LET seq == SetToSeq(S) IN
          [i \in 1..(Len(seq) + 2) |->
@@ -39,15 +42,20 @@ TokTable ==
             ELSE IF i = Len(seq) + 1
             THEN Tok(Org("none"), E("flip", "tag", ""), TRUE, [NoClaims EXCEPT !["ca"] = "v1", !["cb"] = "v1"])
             ELSE Tok(Org("none"), NoEdit, FALSE, NoClaims)]
-    [] Family = "c11" ->
+    [] Base = "c11" ->
          LET S == {<<a, b>> : a \in TimeVals, b \in TimeVals} IN
          LET seq == SetToSeq(S) IN
          [i \in 1..Len(seq) |-> Tok(Org("none"), NoEdit, TRUE, [NoClaims EXCEPT !["exp"] = seq[i][1], !["nbf"] = seq[i][2]])]
 
 Op4(op, k, v, t) == [op |-> op, k |-> k, v |-> v, t |-> t]
 
+\* PasetoParser has no extend_* methods
 CfgOps ==
-  CASE Family = "c15" -> {Op4("check", k, v, 0) : k \in {"iss", "ca"}, v \in {"v1", "v2"}}
+  CASE Family = "c15p" -> {Op4("check", k, v, 0) : k \in {"iss", "ca"}, v \in {"v1", "v2"}}
+    [] Family = "c16p" -> {Op4("validate", k, kind, 0) : k \in {"ca", "cb"}, kind \in {"accept", "reject", "magic"}}
+                           \cup {Op4("check", k, "v1", 0) : k \in {"ca", "cb"}}
+                           \cup {Op4("footer", "", "f1", 0)}
+    [] Family = "c15" -> {Op4("check", k, v, 0) : k \in {"iss", "ca"}, v \in {"v1", "v2"}}
                            \cup {Op4("extcheck", "ca", "v1", 0)}
     [] Family = "c16" -> {Op4("validate", k, kind, 0) : k \in {"ca", "cb"}, kind \in {"accept", "reject", "magic"}}
                            \cup {Op4("extvalid", k, kind, 0) : k \in {"ca", "cb"}, kind \in {"accept", "reject", "magic"}}
@@ -56,7 +64,7 @@ CfgOps ==
     [] Family = "c11" -> {Op4("check", "exp", "v1", 0), Op4("check", "nbf", "v1", 0), Op4("check", "iss", "v1", 0)}
 
 ParseOps ==
-  {Op4("parse", key, "", t) : key \in (IF Family = "c11" THEN {"k1"} ELSE {"k1", "k2"}), t \in 1..Len(TokTable)}
+  {Op4("parse", key, "", t) : key \in (IF Base = "c11" THEN {"k1"} ELSE {"k1", "k2"}), t \in 1..Len(TokTable)}
 
 Init == ps = PInit(Layer, Pr) /\ hist = <<>> /\ ncfg = 0 /\ nparse = 0
 
